@@ -6,6 +6,13 @@ from engine.verdict import Ob
 SOLVER_FUNCS = [
     ('coneprog.py', 'contracts.py.coneprog_spec', 'conelp'),
     ('coneprog.py', 'contracts.py.coneprog_spec', 'coneqp'),
+    ('coneprog.py', 'contracts.py.wrappers_spec', 'lp'),
+    ('coneprog.py', 'contracts.py.wrappers_spec', 'socp'),
+    ('coneprog.py', 'contracts.py.wrappers_spec', 'sdp'),
+    ('coneprog.py', 'contracts.py.wrappers_spec', 'qp'),
+    ('cvxprog.py', 'contracts.py.cvxprog_spec', 'cpl'),
+    ('cvxprog.py', 'contracts.py.wrappers_cvxprog_spec', 'cp'),
+    ('cvxprog.py', 'contracts.py.wrappers_cvxprog_spec', 'gp'),
 ]
 
 
